@@ -5,7 +5,8 @@ a. Sequential results: every atomic load/store/RMW/cmpxchg flavour over boundary
    window afterwards (wrapped new value, neighbours untouched).
 b. Atomicity: harness/atomics_stress.c calls the translated module's exported functions from 2..16 pthreads on child
    instances sharing one memory; unique-value scenarios (add/sub chains, xchg permutations, cmpxchg chains, owned bits,
-   adjacent narrow lanes) are decided exactly; built plain -O2, ASan and TSan (TSan must stay silent on the generated code).
+   adjacent narrow lanes) are decided exactly; two-thread store-buffering and message-passing litmus rounds (spin-barrier aligned) check
+   that loads and stores of different locations fit one total order; built plain -O2, ASan and TSan (TSan must stay silent on the generated code).
 """
 import os, shutil
 from vlib import env, e2e, wasm, gen, diff, san
@@ -194,7 +195,7 @@ def stress(chk, w2c2, quick):
     def one(job):
         tag, i = job
         rounds = 3 if tag in ('plain-O2', 'clang-O2') else 1
-        return job, env.run([exes[tag], str(env.SEED * 1000 + i), str(rounds)], env=dict(env.SAN_ENV, TSAN_OPTIONS='halt_on_error=0:exitcode=0'), timeout=900)
+        return job, env.run([exes[tag], str(env.SEED * 1000 + i), str(rounds), '60' if tag in ('plain-O2', 'clang-O2') else '4'], env=dict(env.SAN_ENV, TSAN_OPTIONS='halt_on_error=0:exitcode=0'), timeout=900)
 
     total_ops = 0
     for (tag, i), r in env.pmap(one, runs, jobs=max(2, env.JOBS // 4)):
@@ -212,7 +213,8 @@ def stress(chk, w2c2, quick):
         for l in r.out.splitlines():
             if l.startswith('VIOL'):
                 toks = l.split()
-                chk.violation('C16:lost-update:%s:%s' % (toks[1], toks[4]), 'build %s: %s' % (tag, l), files)
+                kind_ = 'total-order' if toks[1].startswith('litmus') else 'lost-update'
+                chk.violation('C16:%s:%s:%s' % (kind_, toks[1], toks[4]), 'build %s: %s' % (tag, l), files)
             elif l.startswith('OK'):
                 toks = l.split()
                 chk.distinct((toks[1], toks[4], toks[2], tag))
@@ -228,7 +230,7 @@ def stress(chk, w2c2, quick):
     chk.observe('contended_ops_total', total_ops, 'set')
     if total_ops < (2 * 10**6 if quick else 4 * 10**7):
         chk.inconclusive('only %d contended operations executed' % total_ops)
-    chk.sample({'part': 'b', 'scenarios': ['add1', 'sub1', 'xchg', 'cas', 'bits', 'lanes'], 'threads': [2, 4, 8, 16]})
+    chk.sample({'part': 'b', 'scenarios': ['add1', 'sub1', 'xchg', 'cas', 'bits', 'lanes', 'litmus-sb', 'litmus-mp'], 'threads': [2, 4, 8, 16]})
 
 
 def main(chk):
